@@ -43,20 +43,27 @@ func vMax(a, b int) int {
 	return b
 }
 
-// vSweepProfile draws a profile: the base skeleton plus at most max features.
-func vSweepProfile(name string, clauses []string, max int, exclude ...string) *vProfile {
+// vSweepProfile draws a profile: the base skeleton, the features in always, and
+// at most max of the features in choice.
+func vSweepProfile(name string, clauses []string, max int, always []string, choice []string) *vProfile {
 	p := &vProfile{name: name, clauses: clauses,
 		maxScopes: 2, nRegs: 2, maxParams: 1, maxResults: 1, pForms: 1, rForms: 1, names: 1,
 		faults: 1, nInvokes: 1, invParams: 1}
-	n := 0
-	for _, f := range vFeatures {
-		skip := false
-		for _, x := range exclude {
-			if x == f.name {
-				skip = true
+	has := func(l []string, s string) bool {
+		for _, x := range l {
+			if x == s {
+				return true
 			}
 		}
-		if skip {
+		return false
+	}
+	n := 0
+	for _, f := range vFeatures {
+		if has(always, f.name) {
+			f.on(p)
+			continue
+		}
+		if !has(choice, f.name) {
 			continue
 		}
 		if verifNdBool("feat." + f.name) {
@@ -72,30 +79,51 @@ func vSweepProfile(name string, clauses []string, max int, exclude ...string) *v
 	return p
 }
 
-// the model-based properties share one sweep per property
-func verifS01() { verifRunProfile(vSweepProfile("S01", vC01, 2)) }
-func verifS02() { verifRunProfile(vSweepProfile("S02", vC02, 2)) }
-func verifS03() { verifRunProfile(vSweepProfile("S03", vC03, 2)) }
-func verifS04() { verifRunProfile(vSweepProfile("S04", vC04, 2)) }
-func verifS07() { verifRunProfile(vSweepProfile("S07", vC07, 2)) }
-func verifS08() { verifRunProfile(vSweepProfile("S08", vC08, 2)) }
-func verifS09() { verifRunProfile(vSweepProfile("S09", vC09, 2)) }
-func verifS10() { verifRunProfile(vSweepProfile("S10", vC10, 2)) }
-func verifS11() { verifRunProfile(vSweepProfile("S11", vC11, 2)) }
-func verifS12() { verifRunProfile(vSweepProfile("S12", vC12, 2)) }
-func verifS13() { verifRunProfile(vSweepProfile("S13", vC13, 2)) }
-func verifS05() { verifRunProfile(vSweepProfile("S05", vC05s, 2)) }
+func vL(s ...string) []string { return s }
 
-// every clause at once (used to size the sweep and to look for oracle errors)
-func verifSAll() {
-	verifRunProfile(vSweepProfile("SAll", []string{"C01.", "C02.", "C03.", "C04.", "C05s.", "C07.", "C08.", "C09.", "C10.", "C11.", "C12.", "C13."}, 2))
+// one sweep per model-based property: every single feature and every pair of
+// features from a list chosen for the property, on the two-registration skeleton
+func verifS01() {
+	verifRunProfile(vSweepProfile("S01", vC01, 2, nil, vL("export", "optional", "names", "robj", "decor", "decor2", "late", "latescopes", "twice")))
+}
+func verifS02() {
+	verifRunProfile(vSweepProfile("S02", vC02, 2, vL("twice"), vL("export", "groups", "flatten", "decor", "decor2", "late", "latescopes", "third")))
+}
+func verifS03() {
+	verifRunProfile(vSweepProfile("S03", vC03, 2, nil, vL("optional", "groups", "soft", "decor", "decor2", "export", "twice", "late")))
+}
+func verifS04() {
+	verifRunProfile(vSweepProfile("S04", vC04, 2, vL("optional"), vL("nested", "export", "late", "names", "robj", "twice", "decor", "third")))
+}
+func verifS05() {
+	verifRunProfile(vSweepProfile("S05", vC05s, 2, nil, vL("export", "groups", "optional", "defer", "latescopes", "late", "twice", "decor2")))
+}
+func verifS07() {
+	verifRunProfile(vSweepProfile("S07", vC07, 2, vL("errors", "twice"), vL("panics", "decor", "decor2", "optional", "groups", "late", "export", "robj")))
+}
+func verifS08() {
+	verifRunProfile(vSweepProfile("S08", vC08, 2, nil, vL("export", "latescopes", "late", "twice", "optional", "names", "decor", "groups")))
+}
+func verifS09() {
+	verifRunProfile(vSweepProfile("S09", vC09, 2, nil, vL("names", "robj", "as", "groups", "export", "flatten", "late", "twice")))
+}
+func verifS10() {
+	verifRunProfile(vSweepProfile("S10", vC10, 2, vL("groups"), vL("flatten", "export", "as", "late", "latescopes", "twice", "robj", "third")))
+}
+func verifS11() {
+	verifRunProfile(vSweepProfile("S11", vC11, 2, vL("soft"), vL("robj", "late", "twice", "export", "decor", "optional", "params2", "third")))
+}
+func verifS12() {
+	verifRunProfile(vSweepProfile("S12", append([]string{"C01.arg"}, vC12...), 2, vL("decor"), vL("decor2", "export", "groups", "latescopes", "twice", "late", "errors", "third")))
+}
+func verifS13() {
+	verifRunProfile(vSweepProfile("S13", vC13, 2, vL("errors"), vL("panics", "decor", "optional", "defer", "export", "twice", "late", "groups")))
 }
 
 func init() {
 	for n, f := range map[string]func(){
 		"verifS01": verifS01, "verifS02": verifS02, "verifS03": verifS03, "verifS04": verifS04, "verifS05": verifS05, "verifS07": verifS07,
 		"verifS08": verifS08, "verifS09": verifS09, "verifS10": verifS10, "verifS11": verifS11, "verifS12": verifS12, "verifS13": verifS13,
-		"verifSAll": verifSAll,
 	} {
 		verifEntries[n] = f
 	}
